@@ -136,7 +136,7 @@ class C04(Property):
 
     def judge(self, cases, model, impl):
         out, nontrivial, dist = [], [], {}
-        inv_ok = {}
+        inv_ok, total_ok = {}, {}
         for c in cases:
             if c.tags["role"] == "inv":
                 ic = impl.get(c.id)
@@ -144,6 +144,8 @@ class C04(Property):
                 mc = model.get(c.id)
                 if mc and ic and mc[0] == "INVARIANT" and mc[1] != ic[1]:
                     out.append(Finding("disagree", c, "check_invariants: model %s vs implementation %s" % (mc[1], ic[1])))
+                # `oko`: the premise of C04_total_without_adjacent, evaluated by the extracted model
+                total_ok[c.tags["group"]] = bool(mc) and mc[0] == "INVARIANT" and len(mc) > 2 and mc[2] == "true"
         for c in cases:
             role = c.tags["role"]
             if role == "inv":
@@ -157,6 +159,11 @@ class C04(Property):
                 r = compare.agree_class_value(model.get(c.id), ic)
                 if r:
                     out.append(Finding("disagree", c, r))
+                if total_ok.get(c.tags["group"]):
+                    dist["theorem_applies(total_without_adjacent)"] = dist.get("theorem_applies(total_without_adjacent)", 0) + 1
+                    mc = model.get(c.id)
+                    if mc and mc[0] in ("PANIC", "FUEL"):
+                        out.append(Finding("model", c, "the extracted model contradicts C04_total_without_adjacent: %s" % (mc,)))
                 cls = compare.impl_class(ic)
                 nontrivial.append(c.line())
                 if cls in ("PANIC", "HANG", "EXIT", "MISSING"):
